@@ -76,3 +76,9 @@ claimed["C20"] = dict(
     text="Every config write changed exactly one (scope, section, key) of the independently parsed files and nothing else on disk; the next commit carried exactly the effective name and e-mail (local over global) unchanged; commit was refused with the disk state unchanged whenever name or e-mail was missing; malformed names (no dot, two dots, empty section or key, wrong argument count) were refused without change.",
     note="Trusted: gitfmt config parser (value = everything after the first ' = '). E-mail values are restricted to addresses Goit's commit reader accepts (C12 owns that domain).",
 )
+claimed["C18"] = dict(
+    category="model_checking",
+    technique="exhaustive enumeration of the command grammar (18 sub-commands + help/completion/bare goit; every flag subset, unknown flag, missing flag value; argument lists of length 0..2 over per-command alphabets incl. ENOTDIR paths, 300-char names, regexp metacharacters, empty strings, malformed ids and positions) on every state of a corpus (9 seed states incl. unborn, emptied, renamed, odd names + all states of a bounded BFS)",
+    text="Every enumerated command line on every corpus state ended with exit status 0 or 1, without Go panic text and within the time limit; every invocation the generator marked invalid by its arguments alone that exited non-zero left the complete disk state unchanged.",
+    note="Trusted: the generator's notion of 'invalid by arguments alone' (decided before the run, never from the error text). States outside the corpus and argument lists longer than 2 are not covered; no random sequences (different family).",
+)
